@@ -68,6 +68,8 @@ func (p *regExpParser) scan() {
 			p.scanGroup()
 		case '[':
 			p.scanBracket()
+		case '{':
+			p.scanBrace()
 		case ')':
 			p.error(-1, "Unmatched ')'")
 			p.invalid = true
@@ -105,6 +107,8 @@ func (p *regExpParser) scanGroup() {
 			p.scanGroup()
 		case '[':
 			p.scanBracket()
+		case '{':
+			p.scanBrace()
 		default:
 			p.pass()
 			continue
@@ -116,6 +120,55 @@ func (p *regExpParser) scanGroup() {
 		return
 	}
 	p.pass()
+}
+
+// quantifierBounds returns the two bounds of a quantifier {n} {n,} {n,m} at the start of str
+// without their leading zeros, and the length of the quantifier (0 if there is none).
+func quantifierBounds(str string) (string, string, int) {
+	end := strings.IndexByte(str, '}')
+	if end < 2 || str[0] != '{' {
+		return "", "", 0
+	}
+	lo, hi, _ := strings.Cut(str[1:end], ",")
+	for _, chr := range lo + hi {
+		if chr < '0' || chr > '9' {
+			return "", "", 0
+		}
+	}
+	if lo == "" {
+		return "", "", 0
+	}
+	trim := func(digits string) string {
+		if digits = strings.TrimLeft(digits, "0"); digits == "" {
+			return "0"
+		}
+		return digits
+	}
+	if hi != "" {
+		hi = trim(hi)
+	}
+	return trim(lo), hi, end + 1
+}
+
+// {n} {n,} {n,m}: a bound may be any digit sequence (ES5 15.10.1 QuantifierPrefix), re2 takes one
+// written with leading zeros as literal text, so the bounds are passed on without them.
+func (p *regExpParser) scanBrace() {
+	str := p.str[p.chrOffset:]
+	lo, hi, length := quantifierBounds(str)
+	if length == 0 {
+		p.pass()
+		return
+	}
+	quantifier := "{" + lo + "}"
+	if strings.Contains(str[:length], ",") {
+		quantifier = "{" + lo + "," + hi + "}"
+	}
+	if _, err := p.goRegexp.WriteString(quantifier); err != nil {
+		p.errors = append(p.errors, err)
+	}
+	for ; length > 0; length-- {
+		p.read()
+	}
 }
 
 // [...].
